@@ -1,7 +1,7 @@
 """C11 - runs are deterministic and independent of process history.
 
 Search over run histories issued through the programmatic entry point in ONE
-process: every sequence of <=2 (thorough <=3) runs from an alphabet of 12 run
+process: every sequence of <=2 (thorough <=3) runs from an alphabet of 14 run
 descriptors (successful and failing) is executed in a fresh child process;
 each run's PQR bytes must equal the bytes the same run produces alone in a
 fresh process.  After every run a structural fingerprint of pdb2pqr's
@@ -20,7 +20,7 @@ from .. import build, engine, pipeline
 PROPERTY = "C11"
 LEVEL = "model_checking"
 RULE = (
-    "all histories of length <=2 (thorough <=3) over a 12-run alphabet, each "
+    "all histories of length <=2 (thorough <=3) over a 14-run alphabet, each "
     "in its own fresh process, plus every run alone under hash seeds 0,1,2 "
     "and a seed-derived one; states = distinct process-state fingerprints, "
     "transitions = distinct (fingerprint, run, fingerprint') edges; "
@@ -35,14 +35,14 @@ ASSUMPTIONS = [
     "process with PYTHONHASHSEED=0",
 ]
 BOUND = {
-    "quick": "12 single runs x 4 hash seeds; all 144 histories of length 2",
-    "thorough": "quick + all 1728 histories of length 3 + 8 hash seeds",
+    "quick": "14 single runs x 4 hash seeds; all 196 histories of length 2",
+    "thorough": "quick + all 2744 histories of length 3 + 8 hash seeds",
 }
 
 ETHANOL = (engine.REPO / "tests/data/ethanol.mol2")
 RUNS = ["pep_amber", "pep_parse_opts", "strand_charmm", "titrated",
         "ligand", "clean", "fail_parse", "fail_charge", "userff_ok",
-        "repair", "bare_model", "two_models"]
+        "repair", "bare_model", "two_models", "fail_gap", "cif_models"]
 
 
 def execute(rid):
@@ -126,6 +126,26 @@ def execute(rid):
         text = ("MODEL        1\n" + body + "ENDMDL\nMODEL        2\n"
                 + body2 + "ENDMDL\nEND\n")
         return pipeline.run(text, ["--ff=AMBER"]), meta
+    if rid == "fail_gap":
+        # more than a tenth of the heavy atoms missing (no repair attempted),
+        # one of them interior: CG..NZ of the lysine are cut off from CA.
+        # Shares residue types with the successful runs of the alphabet.
+        atoms = build.build_peptide(
+            ["SER", "GLU", "LYS", "VAL", "ALA", "LYS"],
+            omit={1: {"OE1", "OE2"}, 2: {"CB"}, 3: {"CG1", "CG2"}, 4: {"CB"}})
+        return pipeline.run(build.pdb_text(atoms), ["--ff=AMBER"]), meta
+    if rid == "cif_models":
+        # four-model mmCIF entry (only the first model is used)
+        from . import c10
+        models = []
+        for i in range(4):
+            m = build.build_peptide(["SER", "LYS", "ALA"],
+                                    origin=(0.4 * i, 0.0, 0.0))
+            for a in m:
+                a["alt"] = ""
+            models.append(m)
+        return pipeline.run(c10.cif_text(models), ["--ff=AMBER"],
+                            input_name="in.cif"), meta
     if rid == "userff_ok":
         # a second, different user force-field pair (the bundled one)
         atoms = build.build_peptide(["GLY", "SER", "LYS"])
